@@ -75,6 +75,8 @@ def as_pair(v):
 def run(ctx):
     from numdifftools.finite_difference import LogRule
     from numdifftools import finite_difference as fdm
+    from harness.common import rule_cache
+    RC = rule_cache(fdm)
     translator_obligations(ctx, ['LogRule.'])
     lean_obligations(ctx, MODULE, THEOREMS)
     rng = ctx.rng
@@ -107,7 +109,7 @@ def run(ctx):
     ratios = [2.0, 1.6, 4.0, 3.0, 1.25, 10.0, 1.1, 7.5]
     # the rule cache as it is when the library has just been imported (a cache that is pre-populated at import time is part of
     # what a user gets); every case below starts from this state, not from an empty cache
-    initial_cache = {k: np.array(v, copy=True) for k, v in fdm.FD_RULES.items()}
+    initial_cache = {k: np.array(v, copy=True) for k, v in RC.items()}
     if initial_cache:
         ctx.notes.append('FD_RULES holds %d entries at import time: %s' % (len(initial_cache), sorted(map(str, initial_cache))[:8]))
     cases = []
@@ -132,8 +134,8 @@ def run(ctx):
         eng['cases'] += 1
         ctx.count('rule.weights', m)
         wq = [s2q(x) for x in line.split()]
-        fdm.FD_RULES.clear()
-        fdm.FD_RULES.update({k: np.array(v, copy=True) for k, v in initial_cache.items()})
+        RC.clear()
+        RC.update({k: np.array(v, copy=True) for k, v in initial_cache.items()})
         r = LogRule(n=n, method=m, order=o)
         w = r.rule(rho)
         weights[(m, n, o, rho)] = w
@@ -207,8 +209,8 @@ def run(ctx):
     pairing_search(ctx)
     ctx.assumptions.append('numpy.linalg.pinv is modelled by the exact inverse of the moment matrix; configurations with '
                            'cond*eps > 1e-3 are outside the property (numerically singular) and are counted, not compared')
-    fdm.FD_RULES.clear()
-    fdm.FD_RULES.update(initial_cache)
+    RC.clear()
+    RC.update(initial_cache)
 
 
 def pairing_search(ctx):
